@@ -1,33 +1,51 @@
 (** C09 - Concurrent requests never receive the same address.
     Property theorems only; the model is Addr/Conc.v, proofs are in
-    Addr/ConcProofs.v, the site table is regenerated from the source into
+    Addr/ConcProofs.v, the site table is regenerated from the source (every
+    package of the repository, by type and call graph) into
     Generated/AddrSites.v on every run. *)
 From Verif Require Import Base.Prelude Addr.Conc Addr.ConcProofs Generated.AddrSites.
 Local Open Scope N_scope.
 
-(** Obligation on the source, re-decided on every run: every wallet function
-    that issues addresses inside a walletdb.Update holds newAddrMtx around the
-    whole Update.  (Removing a Lock at any site makes this fail.) *)
+(** Obligation on the source, re-decided on every run: every database
+    transaction, in any package, that can reach a ScopedKeyManager method
+    advancing an account's address counters - the address requests AND
+    recovery's Extend*Addresses - holds the address mutex EXCLUSIVELY from
+    before Begin until the transaction runner returned (commit and commit
+    handlers included).  Removing a Lock, releasing it inside the closure,
+    turning it into an RLock, or adding an issuing transaction in another
+    package makes this fail. *)
 Theorem C09_sites_hold_mutex : forallb held sites = true.
 Proof. vm_compute. reflexivity. Qed.
 Print Assumptions C09_sites_hold_mutex.
 
-(** ... and the in-memory next index is still advanced only by the commit
-    handler, the shape the model transcribes. *)
+(** ... and the in-memory next index is advanced by the address-returning
+    primitives only in their commit handler, the shape the model transcribes
+    for requests (recovery's eager update is the model's extender). *)
 Theorem C09_model_applies : next_index_update_deferred = true.
 Proof. vm_compute. reflexivity. Qed.
 Print Assumptions C09_model_applies.
 
-(** Requests issued through the sites of the table. *)
+(** Threads made through the sites of the table: a request through an issuing
+    site, a recovery through an extending site (whose transaction commits: a
+    rolled back recovery batch is the eager-memory finding of C08/C10, not a
+    scheduling matter). *)
 Definition from_sites (ths : list thread) : Prop :=
-  Forall (fun th => exists st, In st sites /\ th_held th = held st) ths.
+  Forall (fun th => (exists st, In st sites /\ is_extend st = is_ext th /\ via_site held st th) /\
+                    (is_ext th = true -> th_commits th = true)) ths.
+
+Lemma from_sites_held ths : from_sites ths -> all_held ths.
+Proof.
+  intros H. apply (all_held_from_table sites held ths C09_sites_hold_mutex).
+  eapply Forall_impl; [|exact H]. intros th [(st & Hin & _ & Hv) Hc]. split; [eauto|exact Hc].
+Qed.
 
 (** For any number of concurrent requests made through the sites found in
     the source (any mix of sites, any number of addresses per request, dry
-    runs included), for ALL schedules: in every reachable state the indices
-    handed out are duplicate-free and are exactly the gap-free range
-    [n0, n0+k), k = number of addresses issued so far; and once every request
-    has returned, memory agrees with disk at n0+k and no lock is held. *)
+    runs included) and any number of recoveries extending the branch, for ALL
+    schedules: in every reachable state the indices consumed are duplicate-free
+    and are exactly the gap-free range [n0, n0+k), k = number consumed so far;
+    and once every request has returned, memory agrees with disk at n0+k and
+    no lock is held. *)
 Theorem C09_all_schedules : forall ths n0 cached sched s,
   from_sites ths ->
   exec ths (init ths n0 cached) sched = Some s ->
@@ -38,15 +56,53 @@ Theorem C09_all_schedules : forall ths n0 cached sched s,
      mtx s = None /\ wr s = None /\ txd s = None).
 Proof.
   intros ths n0 cached sched s Hf He.
-  exact (safe_all_schedules ths n0 cached sched s
-           (all_held_from_table sites held ths C09_sites_hold_mutex Hf) He).
+  exact (safe_all_schedules ths n0 cached sched s (from_sites_held ths Hf) He).
 Qed.
 Print Assumptions C09_all_schedules.
+
+(** What callers received: the indices handed out to requests (recovery's
+    extensions left aside) are pairwise distinct, in every reachable state. *)
+Theorem C09_handed_out_distinct : forall ths n0 cached sched s,
+  from_sites ths ->
+  exec ths (init ths n0 cached) sched = Some s ->
+  NoDup (map snd (handed ths s)).
+Proof.
+  intros ths n0 cached sched s Hf He.
+  exact (handed_nodup ths n0 cached sched s (from_sites_held ths Hf) He).
+Qed.
+Print Assumptions C09_handed_out_distinct.
+
+(** The other things the commit handler writes: once every request has
+    returned, the cached last address of the branch is the one just below the
+    committed next index (what a restarted manager derives from the row), and
+    the address cache holds no index the database does not have. *)
+Theorem C09_last_address_and_cache : forall ths n0 cached sched s,
+  from_sites ths ->
+  exec ths (init ths n0 cached) sched = Some s ->
+  terminated s = true ->
+  last_view s = N.pred (disk s) /\
+  (forall i, In i (cache s) -> n0 <= i < disk s).
+Proof.
+  intros ths n0 cached sched s Hf He T.
+  exact (safe_last_and_cache ths n0 cached sched s (from_sites_held ths Hf) He T).
+Qed.
+Print Assumptions C09_last_address_and_cache.
+
+(** ... and, whatever the locking and the schedule, the cache covers what was
+    handed out: once all requests have returned, every index a committed
+    request (or recovery) obtained has been put into the address cache by its
+    commit handler (by extendAddresses). *)
+Theorem C09_cache_covers_handed_out : forall ths n0 cached sched s,
+  exec ths (init ths n0 cached) sched = Some s -> terminated s = true ->
+  forall t th, nth_error ths t = Some th -> th_commits th = true ->
+    incl (obtained s t) (cache s).
+Proof. exact cache_covers_obtained. Qed.
+Print Assumptions C09_cache_covers_handed_out.
 
 (** The same statement with the discipline as an explicit premise (what the
     table obligation feeds). *)
 Theorem C09_safe_if_mutex_held : forall ths n0 cached sched s,
-  Forall (fun th => th_held th = true) ths ->
+  Forall disciplined ths ->
   exec ths (init ths n0 cached) sched = Some s ->
   NoDup (indices s) /\
   indices s = rangeN n0 (N.of_nat (length (issued s))) /\
@@ -58,13 +114,14 @@ Print Assumptions C09_safe_if_mutex_held.
 
 (** Whatever the locking discipline and the schedule: once all requests have
     returned, every request whose transaction committed holds exactly the
-    [th_n] consecutive indices it asked for, and a rolled back request (dry
-    run) holds none.  Together with C09_all_schedules: every call that
-    succeeds obtains addresses no other call obtained. *)
+    [th_n] consecutive indices it asked for (a recovery: the indices from the
+    one it read through its target), and a rolled back request (dry run)
+    holds none.  Together with C09_all_schedules: every call that succeeds
+    obtains addresses no other call obtained. *)
 Theorem C09_each_request_obtains : forall ths n0 cached sched s,
   exec ths (init ths n0 cached) sched = Some s -> terminated s = true ->
   forall t th, nth_error ths t = Some th ->
-    (th_commits th = true -> exists r, obtained s t = rangeN r (th_n th)) /\
+    (th_commits th = true -> exists r, obtained s t = rangeN r (count_of th r)) /\
     (th_commits th = false -> obtained s t = []).
 Proof. exact each_request_obtains. Qed.
 Print Assumptions C09_each_request_obtains.
@@ -72,7 +129,7 @@ Print Assumptions C09_each_request_obtains.
 (** The two locks cannot deadlock: whatever was scheduled so far, if a request
     is unfinished some thread can take a step. *)
 Theorem C09_no_deadlock : forall ths n0 cached sched s,
-  Forall (fun th => th_held th = true) ths ->
+  Forall disciplined ths ->
   exec ths (init ths n0 cached) sched = Some s ->
   terminated s = false -> exists t s', step ths s t = Some s'.
 Proof. exact progress_all_schedules. Qed.
@@ -88,7 +145,7 @@ Theorem C09_unsafe_without_mutex : forall n0 cached,
 Proof. exact unsafe_without_mutex. Qed.
 Print Assumptions C09_unsafe_without_mutex.
 
-(** ... and a single site without the mutex is enough, in either order. *)
+(** ... a single site without the mutex is enough, in either order ... *)
 Theorem C09_unsafe_one_site_without_mutex : forall n0 cached,
   (exists sched s,
     exec [held1; unheld1] (init [held1; unheld1] n0 cached) sched = Some s /\
@@ -99,21 +156,55 @@ Theorem C09_unsafe_one_site_without_mutex : forall n0 cached,
 Proof. exact unsafe_one_site_without_mutex. Qed.
 Print Assumptions C09_unsafe_one_site_without_mutex.
 
-(** Non-vacuity: the table is not empty; three requests (one deriving two
-    addresses, one dry run) interleaved as far as the locks allow terminate
-    with indices 5,6,7 and memory = disk = 8; the witness schedule of the
-    unsafe theorem hands out index 5 twice. *)
+(** ... a READ lock is not enough (two requests through a site that takes the
+    mutex with RLock) ... *)
+Theorem C09_unsafe_with_read_lock : forall n0 cached,
+  exists sched s,
+    exec [shared1; shared1] (init [shared1; shared1] n0 cached) sched = Some s /\
+    ~ NoDup (indices s).
+Proof. exact unsafe_with_read_lock. Qed.
+Print Assumptions C09_unsafe_with_read_lock.
+
+(** ... and recovery needs it too (the defect repaired by 3232cc6, found by
+    this check): a request, mutex held, commits index 5 and sits between its
+    commit and its commit handler; recovery without the mutex reads the stale
+    in-memory index, extends the branch through 5..8 and commits; the stale
+    handler then puts the in-memory index back to 6.  The next request is
+    handed 6 - an index recovery had extended through - and the database's
+    next index ends at 7 instead of 9. *)
+Theorem C09_unsafe_recovery_without_mutex : forall cached,
+  exists sched s,
+    let ths := recovery_threads 5 in
+    exec ths (init ths 5 cached) sched = Some s /\ terminated s = true /\
+    by_thread s 1 = [5; 6; 7; 8] /\ by_thread s 2 = [6] /\
+    map snd (handed ths s) = [5; 6] /\
+    ~ NoDup (indices s) /\ disk s = 7.
+Proof. exact unsafe_recovery_without_mutex. Qed.
+Print Assumptions C09_unsafe_recovery_without_mutex.
+
+(** Non-vacuity: the table has issuing and extending sites, in the packages
+    read there is more than package wallet; three requests (one deriving two
+    addresses, one dry run) and a recovery, all holding the mutex, run one
+    after the other terminate with indices 5,6 | 7 | 8,9,10 consumed, memory =
+    disk = 11, last address 10, cache = those indices; the witness schedule
+    of the unsafe theorem hands out index 5 twice; with the mutex the witness
+    schedules are not executable (B blocks). *)
 Example C09_nonvacuous :
-  sites <> [] /\
-  (let ths := [ {| th_held := true; th_n := 2; th_commits := true |};
-                {| th_held := true; th_n := 1; th_commits := false |};
-                {| th_held := true; th_n := 1; th_commits := true |} ] in
+  filter is_issue sites <> [] /\ filter is_extend sites <> [] /\
+  (2 <= length packages_scanned)%nat /\
+  (let ths := [ request true false 2 true; request true false 1 false;
+                request true false 1 true; extender true 10 ] in
    match exec ths (init ths 5 false) (seq_sched ths 0) with
-   | Some s => terminated s = true /\ issued s = [(0%nat, 5); (0%nat, 6); (2%nat, 7)] /\
-               mem s = Some 8 /\ disk s = 8
+   | Some s => terminated s = true /\
+               issued s = [(0%nat, 5); (0%nat, 6); (2%nat, 7); (3%nat, 8); (3%nat, 9); (3%nat, 10)] /\
+               map snd (handed ths s) = [5; 6; 7] /\
+               mem s = Some 11 /\ disk s = 11 /\ last_view s = 10 /\ cache s = [5; 6; 7; 8; 9; 10]
    | None => False
    end) /\
   run_indices [unheld1; unheld1] 5 true witness_two_unheld = Some [5; 5] /\
-  (* with the mutex the witness schedule is not executable: B blocks *)
-  run_indices [held1; held1] 5 true witness_held_then_unheld = None.
-Proof. vm_compute. repeat split; discriminate. Qed.
+  run_indices [shared1; shared1] 5 true witness_two_shared = Some [5; 5] /\
+  run_indices [held1; held1] 5 true witness_held_then_unheld = None /\
+  run_indices [shared1; held1] 5 true witness_shared_then_held = None /\
+  exec [held1; extender true 8; held1] (init [held1; extender true 8; held1] 5 true)
+       [0; 0; 0; 0; 0; 1]%nat = None.
+Proof. vm_compute. repeat split; try discriminate; lia. Qed.
